@@ -90,7 +90,10 @@ type SigSpec struct {
 	NoKeyInfo bool
 	// NameOnly (with NoKeyInfo): a KeyInfo that names Cert by subject key identifier, issuer and serial number, subject
 	// name, key name and key value, without embedding it. The message still carries no certificate.
-	NameOnly  bool
+	NameOnly bool
+	// NameForms selects the forms a NameOnly KeyInfo uses (bit 0 key identifier, 1 issuer and serial, 2 subject name,
+	// 3 key name); 0 means all of them
+	NameForms int
 	C14N      C14N
 	Hash      string
 	Place     int    // 0 right after Issuer; 1 first child; 2 last child
@@ -245,19 +248,31 @@ func BuildSignature(el *etree.Element, spec *SigSpec) (*etree.Element, error) {
 	}
 	if spec.NoKeyInfo && spec.NameOnly && spec.Cert != nil {
 		c := spec.Cert.X509
-		ki := mk(sig, "KeyInfo")
-		mk(ki, "KeyName").SetText(c.Subject.String())
-		xd := mk(ki, "X509Data")
-		ski := c.SubjectKeyId
-		if len(ski) == 0 {
-			sum := sha1.Sum(c.RawSubjectPublicKeyInfo)
-			ski = sum[:]
+		forms := spec.NameForms
+		if forms == 0 {
+			forms = 15
 		}
-		mk(xd, "X509SKI").SetText(base64.StdEncoding.EncodeToString(ski))
-		is := mk(xd, "X509IssuerSerial")
-		mk(is, "X509IssuerName").SetText(c.Issuer.String())
-		mk(is, "X509SerialNumber").SetText(c.SerialNumber.String())
-		mk(xd, "X509SubjectName").SetText(c.Subject.String())
+		ki := mk(sig, "KeyInfo")
+		if forms&8 != 0 {
+			mk(ki, "KeyName").SetText(c.Subject.String())
+		}
+		xd := mk(ki, "X509Data")
+		if forms&1 != 0 {
+			ski := c.SubjectKeyId
+			if len(ski) == 0 {
+				sum := sha1.Sum(c.RawSubjectPublicKeyInfo)
+				ski = sum[:]
+			}
+			mk(xd, "X509SKI").SetText(base64.StdEncoding.EncodeToString(ski))
+		}
+		if forms&2 != 0 {
+			is := mk(xd, "X509IssuerSerial")
+			mk(is, "X509IssuerName").SetText(c.Issuer.String())
+			mk(is, "X509SerialNumber").SetText(c.SerialNumber.String())
+		}
+		if forms&4 != 0 {
+			mk(xd, "X509SubjectName").SetText(c.Subject.String())
+		}
 	}
 	work.RemoveChild(sig)
 	return sig, nil
